@@ -153,6 +153,8 @@ def schedules(quick):
         ("forced-chdir2-overlap", "chdir.inside#3=400,chdir.inside#4=400", [(0, "model", 1, "inplace"), (60, "model", 2, "inplace")]),
         ("forced-start2-delayed", "regen.start#2=800", [(0, "model", 1, "inplace"), (100, "model", 2, "inplace")]),
         ("forced-validated2-manifest-drop", "regen.validated#2=1200", [(0, "model", 1, "inplace"), (150, "manifest-drop", 2, "inplace")]),
+        ("lib-bad-import-then-fixed", "", [(0, "model", 1, "inplace"), (200, "lib-bad-import", 2, "inplace"), (300, "model", 3, "inplace"), (300, "lib-good-import", 4, "inplace"), (300, "model", 5, "inplace")]),
+        ("lib-bad-import-then-fixed-fast", "", [(0, "lib-bad-import", 1, "inplace"), (50, "lib-good-import", 2, "inplace"), (50, "model", 3, "rename")]),
         ("forced-validated2-lib-edit", "regen.validated#2=1200", [(0, "lib", 1, "inplace"), (150, "model", 2, "inplace")]),
     ]
     out += forced if quick else forced * 1 + [("forced-validated2-gap%d" % g, "regen.validated#2=1200", [(0, "model", 1, "inplace"), (g, "model", 2, "inplace")]) for g in (20, 50, 100, 300, 600, 1100, 1300)]
@@ -204,6 +206,11 @@ def run(ctx):
                 elif kind == "lib":
                     lib_text = LIB + "LibExtra%d: !record\n  fields:\n    q: int\n" % v
                     save(os.path.join(root, "lib/lib.yml"), lib_text, how)
+                elif kind == "lib-bad-import":
+                    save(os.path.join(root, "lib/_package.yml"), "namespace: Lib\nimports:\n  - htps://example.invalid/base\n", how)
+                    invalid_seen = True
+                elif kind == "lib-good-import":
+                    save(os.path.join(root, "lib/_package.yml"), "namespace: Lib\nimports:\n  - ../base\n", how)
                 elif kind == "manifest-drop":
                     cur_outputs = ("cpp", "json")
                     save(os.path.join(root, "main/_package.yml"), manifest(cur_outputs), how)
